@@ -24,6 +24,7 @@ import ast
 from ..astutil import call_name, calls, dotted, names_in, param_names, stmts, walk_local
 from ..cfg import CFG
 from ..core import AnalysisError, Mutant
+from ..exprnorm import has_code
 
 EXPLANATION = (
     "Taint/guard analysis of the lowered Cython source structure/bonds.pyx with the declared C "
@@ -424,10 +425,10 @@ def run(ctx):
 
     # ---------------- R5 bond type range ------------------------------------
     init = meths["__init__"]
-    uppers = [n for n in walk_local(init) if isinstance(n, ast.Compare) and "len(BondType)" in ast.unparse(n)]
+    uppers = [n for n in walk_local(init) if isinstance(n, ast.Compare) and has_code(n, "len(BondType)")]
     lowers = [n for n in walk_local(init) if isinstance(n, ast.Compare) and isinstance(n.ops[0], ast.Lt)
               and isinstance(n.comparators[0], ast.Constant) and n.comparators[0].value == 0
-              and "bonds[:, 2]" in ast.unparse(n.left)]
+              and has_code(n.left, "bonds[:, 2]")]
     ctx.ob("R5.bond-type-upper", BONDS, "BondList.__init__", "bonds[:, 2] >= len(BondType)",
            any(isinstance(n.ops[0], ast.GtE) for n in uppers),
            "bond types at or above len(BondType) must be rejected", init.lineno)
@@ -437,7 +438,7 @@ def run(ctx):
            "becomes 4294967295 (BondList(3, [(0,1,-1)]))", init.lineno)
     ab = meths["add_bond"]
     ctx.ob("R5.bond-type-upper", BONDS, "BondList.add_bond", "bond_type >= len(BondType)",
-           any(isinstance(n, ast.Compare) and "len(BondType)" in ast.unparse(n) and isinstance(n.ops[0], ast.GtE)
+           any(isinstance(n, ast.Compare) and has_code(n, "len(BondType)") and isinstance(n.ops[0], ast.GtE)
                for n in walk_local(ab)),
            "bond types at or above len(BondType) must be rejected", ab.lineno)
 
